@@ -12,16 +12,28 @@ TV = ('TLA+ specification (Layer S: WHATWG algorithms; Layer C: contract monitor
 NOTE = ('Trusted: TLC 1.8.0; the index snapshot under spec/data (from the repository test fixtures and Python codec tables, not src/data.rs); the harness records '
         'arguments/results faithfully. Exhaustive only over the enumerated finite spaces named in the evidence; random elsewhere.')
 
+MC = {
+    'C02': 'Layer I (implementation-shaped decoder model, every variant transcribed) x monitor model-checked exhaustively by TLC over class alphabets (invariant NoViolation); one behaviour per reachable state replayed on the real code and compared call by call',
+    'C03': 'the inverse tables of the encoder oracle are checked against the forward indexes by TLC (MC_Indexes, InverseCorrect)',
+    'C04': 'Layer I (every encoder variant, NCR wrapper) x monitor model-checked exhaustively by TLC; exported behaviours replayed on the real code and compared call by call',
+    'C05': 'the zeroing/stripping clean-up of the str sinks model-checked by TLC over every valid old buffer, written prefix and garbage pattern (MC_StrZeroing)',
+    'C07': 'Layer I incl. the max_*_buffer_length formulas of decoders and encoders: InvokeQueried in every reachable state model-checked by TLC; on replay the real query answer is compared with the formula',
+    'C08': 'liveness on Layer I x monitor: under weak fairness of minimum-capacity calls with last=true TLC proves <>(done) for decoders (MC_DecLive) and encoders (MC_EncLive)',
+    'C10': 'Layer I life-cycle automaton (11 states, morphing, pending BOM bytes) x monitor with the BOM-wrapper oracle model-checked exhaustively by TLC; exported behaviours replayed on the real code',
+    'C13': 'Layer I three-phase label scanner model-checked by TLC to equal get-an-encoding on every short string over a class alphabet and around the 19-byte cut-off (MC_Labels)',
+    'C19': 'Layer I latin1_byte_compatible_up_to (life-cycle arms, in_neutral_state per variant) asked before every modelled call, judged by the monitor under TLC and compared with the real answer on replay',
+}
+
 CHECKS = {
     'C01': ('whole-stream decodes of the real decoders are judged item by item (scalars, absolute error spans, U+FFFD per error) against a TLA+ transcription of the Standard decoders; bounded-exhaustive over all 1-/2-byte strings and class-alphabet 3/4-byte strings', '6 C01'),
     'C02': ('every call of bounded-exhaustive and random call histories must emit a prefix of what the Standard decoder (fed with the presented bytes) has determined, lose nothing at end of stream and report the same absolute spans: chunking independence by construction of the monitor', '6 C02'),
     'C03': ('every scalar alone through every encoder (set equality with the spec), all ordered pairs over class alphabets, random texts; judged against a TLA+ transcription of the Standard encoders with declaratively checked inverse indexes', '6 C03'),
     'C04': ('two-sided prefix rule on every call of bounded-exhaustive and random encoder histories; UTF-8 and UTF-16 sources judged against the same oracle; split surrogate pairs are violations', '6 C04'),
     'C05': ('whole destination of decode_to_str*/decode_to_string* validated by the spec UTF-8 definition after every call of cut-set histories with multi-byte fillers; written prefix validated on every call', '6 C05'),
-    'C06': ('contract clauses of every call event (bounds, InputEmpty, no panic at documented minimum, String/Vec identity, canary bands) as monitor conjuncts over random, BOM-matrix and deep exhaustive histories; UB without observable effect is a declared residual', '6 C06'),
+    'C06': ('contract clauses of every call event (bounds, InputEmpty, no panic at documented minimum, String/Vec identity, canary bands) as monitor conjuncts over random, BOM-matrix and deep exhaustive histories; buffers flush against PROT_NONE guard pages in child processes (a fault is a monitor violation); UB without observable effect inside mapped memory is a declared residual', '6 C06'),
     'C07': ('every call issued with dst.len() equal to the real query answer in every state reached by cut-set and BOM-matrix histories; OutputFull is a violation', '6 C07'),
     'C08': ('documented caller loop at minimum capacities on all cut sets of short streams/texts and deep exhaustive streams: zero-progress call, call bound 4n+16 and non-termination are monitor violations', '6 C08'),
-    'C09': ('with-replacement methods judged against the Standard items with U+FFFD / NCR substitution and exact had_errors / had_unmappables per call', '6 C09'),
+    'C09': ('with-replacement methods judged against the Standard items with U+FFFD / NCR substitution and exact had_errors / had_unmappables per call; every call also given to a twin converter driven by the documented manual procedure over the without-replacement method, identical observation demanded by the monitor', '6 C09'),
     'C10': ('BOM wrapper of the Standard (sniff / remove / off) in TLA+; exhaustive matrix of prefixes x cut sets x modes x capacities for all 40 encodings validated call by call, encoding() checked at every call', '6 C10'),
     'C12': ('Standard decoder of the same encoding run by the monitor over the encoder output after every call (no error, round trip modulo the fold set, pending-state flag, ASCII at end)', '6 C12'),
     'C18': ('three converters in lockstep with different destination pre-fills; equality of observations is a monitor conjunct on every call', '6 C18'),
@@ -47,7 +59,7 @@ m = {
     },
     'engines': [
         {'name': 'tlc-trace-validation', 'path': 'spec/trace', 'serves_properties': sorted(CHECKS), 'kind_free_text': 'TLC evaluating TLA+ monitors (spec/api) over ndjson traces recorded from the real code by harness/'},
-        {'name': 'tlc-model-checking', 'path': 'spec/mc', 'serves_properties': [], 'kind_free_text': 'TLC exhaustive exploration of the implementation-shaped model composed with the monitors'},
+        {'name': 'tlc-model-checking', 'path': 'spec/mc', 'serves_properties': sorted(MC), 'kind_free_text': 'TLC exhaustive exploration of the implementation-shaped model composed with the monitors'},
     ],
     'checks': [],
     'notes': 'See DESIGN.md. ./check <id> [--tier quick|thorough]; ./check replay <file> re-drives a recorded history on the current tree.',
@@ -66,7 +78,7 @@ for p in props:
             'engine': 'tlc-trace-validation',
             'level_claimed': {'category': 'model_checking', 'text': text, 'design_ref': 'DESIGN.md section ' + ref},
             'level_note': NOTE,
-            'technique': TV,
+            'technique': TV + ('; ' + MC[pid] if pid in MC else ''),
         })
     else:
         m['not_applicable'].append({'property_id': pid, 'reason': 'check not built yet (work in progress; see DESIGN.md section 10) - no claim is made'})
